@@ -275,6 +275,63 @@ func (w *world) write(step int, op Op) *hx.Failure {
 				w.o.label("hist:link-to-deleted")
 			}
 		}
+	case "create2":
+		// two documents in one create mutation (one transaction), both carrying the same link
+		names := []string{fmt.Sprintf("c%dd%d", col, w.seq), fmt.Sprintf("c%dd%d", col, w.seq+1)}
+		w.seq += 2
+		var inputs []string
+		for _, name := range names {
+			fields := []string{fmt.Sprintf("name: %q", name), "n: " + intLit(nval)}
+			if setL {
+				fields = append(fields, fkField+": "+strLit(lval))
+			}
+			inputs = append(inputs, "{"+strings.Join(fields, ", ")+"}")
+		}
+		// one-to-one: the second document would be the second holder of the link
+		reject := setL && lval != nil && rel >= 0 && !w.tp.Rels[rel].Many
+		q := fmt.Sprintf(`mutation { create_%s(input: [%s]) { _docID name } }`, colName(col), strings.Join(inputs, ", "))
+		var outs []outcome
+		var ids [][2]string
+		for _, n := range w.nodes() {
+			r := n.Exec(q)
+			o := outcome{}
+			switch {
+			case r.Panic != "":
+				o.err = "PANIC " + r.Panic
+			case !r.OK():
+				o.err = r.Err()
+			default:
+				var pair [2]string
+				for _, row := range r.Rows("create_" + colName(col)) {
+					for i, name := range names {
+						if row["name"] == name {
+							pair[i], _ = row["_docID"].(string)
+						}
+					}
+				}
+				ids = append(ids, pair)
+			}
+			outs = append(outs, o)
+		}
+		w.o.label("hist:two-creates-in-one-mutation")
+		if f := w.judge(step, op, "create-two", reject, outs); f != nil || reject {
+			if reject {
+				w.o.rejected11++
+				w.o.label("hist:1-1-second-holder-rejected")
+			}
+			return f
+		}
+		for i, name := range names {
+			d := &mdoc{id: ids[0][i], name: name, col: col, n: nval, live: true}
+			if d.id == "" || (len(ids) > 1 && ids[1][i] != d.id) {
+				hx.Harnessf("create of two documents: ids %v", ids)
+			}
+			if setL {
+				d.fk = lval
+			}
+			w.docs[col] = append(w.docs[col], d)
+			w.byID[d.id] = d
+		}
 	case "update":
 		lv := w.live(col)
 		if len(lv) == 0 {
